@@ -289,6 +289,9 @@ func (c caseCfg) fanOutStage() int {
 // topicName gives every topic of the pipeline an arbitrary-looking name that depends on the case seed (topic names are the
 // application's choice; nothing in the property depends on them, so they are part of what is varied).
 func (c caseCfg) topicName(key string) string {
+	if k, ok := c.emptyTopicKey(); ok && k == key {
+		return "" // the empty string is a topic name like any other for GoChannel
+	}
 	h := c.seed
 	for _, b := range []byte(key) {
 		h = splitmix(h ^ uint64(b))
@@ -297,14 +300,37 @@ func (c caseCfg) topicName(key string) string {
 	return fmt.Sprintf("%s.%s-%d", words[h%uint64(len(words))], key, (h>>8)%100000)
 }
 
-func (c caseCfg) srcTopic() string { return c.topicName("src") }
+// emptyTopicKey: in an eighth of the cases one topic of the pipeline (source, inner or final) is named "".
+func (c caseCfg) emptyTopicKey() (string, bool) {
+	if splitmix(c.seed^0xE117)%8 != 0 {
+		return "", false
+	}
+	keys := []string{"src"}
+	for s := range c.shape {
+		k := c.outKey(s)
+		dup := false
+		for _, x := range keys {
+			dup = dup || x == k
+		}
+		if !dup {
+			keys = append(keys, k)
+		}
+	}
+	return keys[splitmix(c.seed^0xE118)%uint64(len(keys))], true
+}
 
-func (c caseCfg) outTopic(s int) string {
+func (c caseCfg) outKey(s int) string {
 	xs := make([]string, len(c.shape[s]))
 	for i, t := range c.shape[s] {
 		xs[i] = strconv.Itoa(t)
 	}
-	return c.topicName("t" + strings.Join(xs, "_"))
+	return "t" + strings.Join(xs, "_")
+}
+
+func (c caseCfg) srcTopic() string { return c.topicName("src") }
+
+func (c caseCfg) outTopic(s int) string {
+	return c.topicName(c.outKey(s))
 }
 
 func (c caseCfg) inTopic(t int) string {
@@ -327,6 +353,7 @@ type invRec struct {
 	stage, lin int
 	ord        int // this is the ord-th handler invocation of its stage
 	msg        *message.Message
+	explained  bool // a scripted fault hit this invocation, or its failure has been recorded as unscripted already
 }
 
 type rec struct {
@@ -514,7 +541,10 @@ const livelockBound = 20
 // keeps failing although the faults have stopped.
 func (r *rec) unscripted(stage, lin, inv int, kind, detail string) {
 	r.mu.Lock()
-	if r.stopped[stage] {
+	if ir := r.invs[inv]; ir != nil {
+		ir.explained = true
+	}
+	if r.stopped[stage] || r.sealed {
 		r.mu.Unlock()
 		return // a stopped handler's subscription context is cancelled: expected
 	}
@@ -532,10 +562,20 @@ func (r *rec) unscripted(stage, lin, inv int, kind, detail string) {
 	}
 	r.mu.Unlock()
 	r.wake()
+}
+
+// throttle pauses a stage before it works on a lineage whose deliveries have failed without a scripted fault before
+// (1 ms per such failure, at most 50 ms): a retry loop that never ends stays small, nothing else changes.
+func (r *rec) throttle(stage, lin int) {
+	r.mu.Lock()
+	n := r.ufails[[2]int{stage, lin}]
+	r.mu.Unlock()
 	if n > 50 {
 		n = 50
 	}
-	time.Sleep(time.Duration(n) * time.Millisecond)
+	if n > 0 {
+		time.Sleep(time.Duration(n) * time.Millisecond)
+	}
 }
 
 func (r *rec) watch(inv, stage, lin int, m *message.Message) {
@@ -548,6 +588,13 @@ func (r *rec) watch(inv, stage, lin int, m *message.Message) {
 		r.mu.Lock()
 		r.log(fmt.Sprintf("st.%d.%d.%d.nack", stage, lin, inv))
 		r.stats["nacks"]++
+		if ir := r.invs[inv]; ir != nil && !ir.explained {
+			// nacked although no fault was scripted for this invocation and the handler itself did not fail: the output was refused
+			// by something else than the fault script
+			r.mu.Unlock()
+			r.unscripted(stage, lin, inv, "nack", "the Router nacked the message although handler and scripted publisher did not fail")
+			r.mu.Lock()
+		}
 	case <-r.done:
 		r.mu.Lock()
 	}
@@ -577,12 +624,14 @@ func (r *rec) handler(stage int) message.HandlerFunc {
 		f := r.faultFor(stage, r.hcalls[stage], false)
 		if f != "" {
 			r.log(fmt.Sprintf("ft.%d.%d.%d.%s", stage, lin, inv, f))
+			r.invs[inv].explained = true
 		}
 		r.watchers++
 		r.stats["invocations"]++
 		r.mu.Unlock()
 		go r.watch(inv, stage, lin, msg)
 		r.yield()
+		r.throttle(stage, lin)
 		scripted := f == "hp"
 		// a panic nobody scripted (e.g. the metadata of the received copy cannot be written) goes to the Router like any other
 		// panic; the harness only notes it and slows the retry loop down
@@ -669,6 +718,9 @@ func (p *faultPub) Publish(topic string, msgs ...*message.Message) error {
 	if f == "" && r.refusalFor(st, ir.ord, positions) {
 		f = "px"
 	}
+	if f != "" {
+		ir.explained = true
+	}
 	fan := len(msgs)
 	switch f {
 	case "pe", "px", "pw":
@@ -752,7 +804,7 @@ func runCase(c caseCfg) result {
 	parked, release, removing := make(chan struct{}), make(chan struct{}), make(chan struct{})
 	var dispatchArrivals, removals int32
 	message.SetVerifHook(func(name string, args ...string) {
-		if fanTopic != "" && len(args) > 0 && args[0] == fanTopic {
+		if c.stopSibling && len(args) > 0 && args[0] == fanTopic {
 			switch name {
 			case "gochannel.dispatch.next":
 				if atomic.AddInt32(&dispatchArrivals, 1) == 2 {
@@ -1040,6 +1092,13 @@ func emit(out *wh.Out, c caseCfg, class string) bool {
 	out.Count(fmt.Sprintf("gochannel.buf%d.block%s.persist%s", c.buf, b01(c.blocking), b01(c.persistent)))
 	out.Count(fmt.Sprintf("wiring.perStageRouter%s.decorator%s.tap%s", b01(c.perStage), b01(c.decorator), b01(c.tap)))
 	out.Count("source.bare-struct-literal" + b01(c.bare))
+	if k, ok := c.emptyTopicKey(); ok {
+		if k == "src" {
+			out.Count("empty-topic-name.source")
+		} else {
+			out.Count("empty-topic-name.stage-output")
+		}
+	}
 	out.Count(fmt.Sprintf("faults.scripted%d", len(c.faults)))
 	out.Count(fmt.Sprintf("msgs.%d", c.nmsgs))
 	out.Add("events", len(res.trace))
